@@ -45,7 +45,7 @@ theorem compat_of_axLen {sch : Schema} {k : Kind} {a : Nat} (hax : sch.axes k = 
   · right; exact h b hb3 e
 
 /-- the fold that `concat_<k>` performs, one operand at a time -/
-theorem concat_fold (sch : Schema) (hs : sch.Simple) (k : Kind) (a : Nat) (hax : sch.axes k = [a]) (ha : a < 3)
+theorem concat_fold (sch : Schema) (k : Kind) (hs : sch.SimpleAt k) (a : Nat) (hax : sch.axes k = [a]) (ha : a < 3)
     (s : St α lab) (vs : List (Operand α lab)) (m : Mat3 α) (cols cols' : List (Option (List lab)))
     (hacc : Cons sch (accSt s k m cols)) (hpm : PosDims m)
     (hoff : ∀ b, b < 3 → b ≠ a → axLen b m = axLen b s.mat)
@@ -108,7 +108,7 @@ theorem concat_fold (sch : Schema) (hs : sch.Simple) (k : Kind) (a : Nat) (hax :
             · exact hpm.2.2
         exact ⟨e0 0 (by omega), e0 1 (by omega), e0 2 (by omega)⟩
       have hacc1 : Cons sch (accSt s k m1 cols1) :=
-        cons_of_binaryForm sch hs.wf k a hax ha (simple_lt hs) (accSt s k m cols) v (accSt s k m1 cols1)
+        cons_of_binaryForm sch hs.wf k a hax ha hs.lt (accSt s k m cols) v (accSt s k m1 cols1)
           hacc hcv' hcompat hpm hpv hpm1 hb
       have hoff1 : ∀ b, b < 3 → b ≠ a → axLen b m1 = axLen b s.mat :=
         fun b hb3 hba => by rw [hm1, hlb b hb3 hba, hoff b hb3 hba]
